@@ -133,6 +133,101 @@ impl Gen<'_> {
         }
     }
 
+    /// C12: craft an arbitrary (invariant-respecting) allocation pattern of the lower metadata and
+    /// drive `Lower::get`/`put` directly with every hint row and order
+    pub fn lower_search(&mut self, len: usize) {
+        let frames = match self.rng.below(4) {
+            0 => TREE_FRAMES,
+            1 => TREE_FRAMES + self.rng.below(TREE_FRAMES) + 1,
+            2 => 2 * TREE_FRAMES,
+            _ => self.rng.below(TREE_FRAMES) + 1,
+        };
+        self.q(format!("geom {HUGE_ORDER} {TREE_HUGE}"));
+        if self.q(format!("new {frames} free 0 simple 0:1")) != "ok" {
+            return;
+        }
+        let nh = frames.div_ceil(HUGE_FRAMES);
+        let nt = frames.div_ceil(TREE_FRAMES);
+        let mut rows = vec![0u64; nh * ROWS];
+        let mut huge = vec![0u16; nt * TREE_HUGE];
+        for h in 0..nh {
+            let full_in = (h + 1) * HUGE_FRAMES <= frames;
+            let kind = self.rng.below(7);
+            if kind == 0 && full_in {
+                huge[h] = u16::MAX; // allocated as a whole, bitfield empty
+                continue;
+            }
+            // structure: aligned sub-blocks of a random order, each empty / full / single bit / random
+            let so = self.rng.below(HUGE_ORDER + 1);
+            for b in 0..(HUGE_FRAMES >> so) {
+                let mode = if kind == 1 { 0 } else if kind == 2 { 1 } else { self.rng.below(4) };
+                for i in 0..(1usize << so) {
+                    let f = (b << so) + i;
+                    let set = match mode {
+                        0 => false,
+                        1 => true,
+                        2 => i == (self.rng.0 as usize) % (1 << so),
+                        _ => self.rng.chance(1, 2),
+                    };
+                    if set {
+                        rows[h * ROWS + f / 64] |= 1 << (f % 64);
+                    }
+                }
+            }
+            for i in 0..HUGE_FRAMES {
+                if h * HUGE_FRAMES + i >= frames {
+                    rows[h * ROWS + i / 64] |= 1 << (i % 64);
+                }
+            }
+            huge[h] = (0..ROWS).map(|r| rows[h * ROWS + r].count_zeros() as u16).sum();
+        }
+        self.q(format!(
+            "mem rows {} | huge {}",
+            rows.iter().map(|v| format!("{v:x}")).collect::<Vec<_>>().join(" "),
+            huge.iter().map(|v| format!("{v:x}")).collect::<Vec<_>>().join(" ")
+        ));
+        self.q(format!("new {frames} none 0 simple 0:1"));
+        self.q("hash".into());
+        for _ in 0..len {
+            match self.rng.below(10) {
+                0..=6 => {
+                    let start = self.rng.below(frames) / 64;
+                    let order = match self.rng.below(4) {
+                        0 => self.rng.below(7),
+                        1 => 6 + self.rng.below(HUGE_ORDER - 5),
+                        2 => HUGE_ORDER + self.rng.below(TREE_ORDER - HUGE_ORDER + 1),
+                        _ => self.rng.below(TREE_ORDER + 1),
+                    };
+                    self.q(format!("lget {start} {order} -"));
+                }
+                7 => {
+                    let order = self.rng.below(TREE_ORDER + 1);
+                    let f = self.rng.below(frames) >> order << order;
+                    if f + (1 << order) <= frames {
+                        self.q(format!("lget {} {order} {f}", f / 64));
+                    }
+                }
+                8 => {
+                    if !self.eng.held.is_empty() {
+                        let i = self.rng.below(self.eng.held.len());
+                        let (f, o) = self.eng.held.swap_remove(i);
+                        self.q(format!("lput {f} {o}"));
+                    }
+                }
+                _ => {
+                    let o = self.rng.below(TREE_ORDER + 1);
+                    let f = self.rng.below(frames) >> o << o;
+                    if f + (1 << o) <= frames {
+                        self.q(format!("isfree {f} {o}"));
+                    }
+                }
+            }
+            self.q("hash".into());
+        }
+        self.q("stats".into());
+        self.q("dump".into());
+    }
+
     pub fn start(&mut self, max_trees: usize) -> bool {
         let frames = if self.flavor == Flavor::SingleSlot {
             (2 + self.rng.below(3)) * TREE_FRAMES - if self.rng.chance(1, 3) { self.rng.below(TREE_FRAMES) } else { 0 }
